@@ -87,6 +87,42 @@ CLAIMED = {
             "Trusted: frame model + expectation(). Cases the property leaves open (unknown items in an items-inferred column, blank label cells, "
             "duplicated unknown rows, an emptied table, the torn line of a mid-line truncation) only demand 'raise or lenient result, never wrong data'.",
             "5.4"),
+    "C18": ("syssim", "exploration",
+            "deterministic simulation of system construction: generated definition programs and dimension/parameter files on a scratch disk through every public build path, definition and file faults injected",
+            "Seeded generation of definition programs (processes, flows incl. parallel/opposing with overrides, stocks of every class / lifetime "
+            "model / solver, parameters, naming functions) and of their dimension and parameter files (CSV / Excel, one row or one column, with or "
+            "without header, named sheets or first sheet with a decoy, permuted dict orders), built through direct helpers, from_data_reader, "
+            "from_csv and from_excel. Fault-free builds are compared field by field with the definition; every injected definition or file fault "
+            "(undefined dimension / process, missing or unused lifetime model, time not first, sysenv not first, 2-D dimension file, missing file or "
+            "sheet, dropped / duplicated parameter row) must be refused. Partial fit: a classmethod that raises returns nothing, so the fault "
+            "dimension is thin; what the simulation adds is generated programs and the file boundary.",
+            "Trusted: sysworld.py (writers of the files) and _compare_system. Item tokens are chosen to survive pandas' CSV type/NA inference.",
+            "5.5"),
+    "C02": ("syssim", "fault_enumeration",
+            "deterministic simulation of a material economy: conserved parcel bookings on generated system graphs, conservation faults (lost/duplicated mass, NaN, negative entries) and heals, by-label reference verdict after every batch; per-system enumeration of every array entry",
+            "On generated system graphs (any number of processes, idle processes, parallel / opposing flows, flows of differing dimensionality incl. "
+            "0-d, with or without stocks, stocks without a process) integer-mass parcels are booked along closed walks through sysenv, optionally "
+            "parked in a stock and released at a later time label, so fault-free histories are exactly balanced; conservation faults change one "
+            "entry by >= 2 tol or <= tol/2, to NaN, or to a negative value, and heals undo them. After every batch check_mass_balance / "
+            "check_flows run in both modes with explicit and default tolerance and are judged against a by-label reference (explicit loops, "
+            "math.fsum) computed from the current arrays: pass <=> within tolerance, raise or warning otherwise, NaN never success, pass again "
+            "after heal, exactly the flagged flows named. 'entrysweep' tasks fault every entry of every array of sampled systems.",
+            "Trusted: ref_imbalance / ref_default_tolerance in engines/syssim.py. Verdicts with an imbalance in (tol/2, 2 tol) are skipped. Honest "
+            "scope: check_mass_balance is a pure function of the arrays; the simulation contributes balanced-by-construction systems of arbitrary "
+            "shape, exact ground truth for each injected fault, and fault/heal histories.",
+            "5.5"),
+    "C19": ("syssim", "fault_enumeration",
+            "deterministic simulation with disk fault injection: exports through failing open()/write()/makedirs seams and settrace interrupts, re-import oracle, recovery export; per-system enumeration of every open() index x byte budgets",
+            "Generated systems (names with spaces, arrows, punctuation) filled with pairwise distinct values are exported by convert_to_dict (numpy / "
+            "pandas), pickle, flows / stocks CSV (new / existing / nested directories) and MFADefinition.to_dfs while the simulator owns the open() "
+            "seen by pandas.io.common and flodym.export.data_writer and os.makedirs: open fails at the k-th file, write fails after n bytes "
+            "(ENOSPC / EIO / EACCES), makedirs fails, interrupts. Oracles: the system equals its snapshot after every export; a fault-free export "
+            "holds every flow / stock / dimension / process / endpoint, reads back with from_df (pandas form, CSV files) into identical arrays, one "
+            "file per flow and per exported stock quantity and nothing else new; an export whose write failed must not return normally; repeating "
+            "the export into the same location afterwards succeeds. 'iosweep' tasks fault every open() index x a grid of byte budgets.",
+            "Trusted: the failing-file wrappers and _judge_export. Content of files left by a failed export is not judged. 0-dimensional arrays are "
+            "only required to hold their value (they have no labels to read back by).",
+            "5.5"),
 }
 
 PLANNED = {}
